@@ -47,6 +47,7 @@ fn arb_conn() -> BoxedStrategy<ConnPlan> {
                 default,
             },
             fail_write_at,
+            write_stall: None,
             unsolicited: vec![],
         })
         .boxed()
